@@ -21,14 +21,29 @@ pub struct Case {
     pub kind: u8,
     /// true = next, false = skip_subtree; a leading `next` is always prepended
     pub script: Vec<bool>,
+    /// a path of this many extra nodes is hung below the root before the build ops run (deep trees:
+    /// depth counters, capacity computations)
+    #[serde(default)]
+    pub chain: u8,
 }
 
 /// Replays build ops on a tree with arbitrary node values; errors and documented panics are ignored
 /// (C12 judges them).  Both value types see the same slab behaviour, hence the same indices.
-fn build<N, const K: usize>(ops: &[Op], mk: &dyn Fn(i64) -> N) -> (Tree<N, K>, Model) {
+fn build<N, const K: usize>(ops: &[Op], chain: u8, mk: &dyn Fn(i64) -> N) -> (Tree<N, K>, Model) {
     let mut t = Tree::<N, K>::new();
     let root = t.add_root(mk(100));
     let mut m = Model::new(K, root, 100);
+    let mut cur = root;
+    for i in 0..chain as usize {
+        let l = (i * 7 + 3) % K;
+        match guard(|| t.add_child_node(cur, l, mk(i as i64))) {
+            Ok(Ok(idx)) => {
+                m.add(cur, l, idx, i as i64);
+                cur = idx;
+            }
+            _ => break,
+        }
+    }
     for op in ops {
         match op {
             Op::Add { p, label, v } => {
@@ -122,6 +137,12 @@ where
     let mut exhausted = false;
     let mut steps = vec![true];
     steps.extend_from_slice(script);
+    if m.nodes.len() > 60 && !script.is_empty() {
+        // deep trees: repeat the script so that the traversal gets far down
+        while steps.len() < m.nodes.len() + 10 {
+            steps.extend_from_slice(script);
+        }
+    }
     for (si, &is_next) in steps.iter().enumerate() {
         if exhausted {
             break;
@@ -265,7 +286,7 @@ fn metrics<const K: usize>(t: &Tree<i64, K>, m: &Model) -> Result<(), String> {
 }
 
 fn run_k<const K: usize>(case: &Case, ctx: &mut Ctx) -> CaseResult {
-    let (t, m) = build::<i64, K>(&case.build, &|v| v);
+    let (t, m) = build::<i64, K>(&case.build, case.chain, &|v| v);
     if let Err(e) = compare(&t, &m) {
         // shape construction itself went wrong: that is C12's business
         ctx.class("shape_mismatch_skipped");
@@ -321,7 +342,7 @@ fn run_k<const K: usize>(case: &Case, ctx: &mut Ctx) -> CaseResult {
 }
 
 fn polyhedra_script(case: &Case, m: &Model, ctx: &mut Ctx) -> Result<(), String> {
-    let (t, m2) = build::<AffContent, 2>(&case.build, &|v| {
+    let (t, m2) = build::<AffContent, 2>(&case.build, case.chain, &|v| {
         AffContent::new(AffFunc::from_mats(ndarray::arr2(&[[1.0]]), ndarray::arr1(&[v as f64])))
     });
     if m2 != *m || shape_of(&t).iter().map(|x| x.0).collect::<Vec<_>>() != m.live() {
@@ -413,8 +434,9 @@ impl Property for C13 {
             any::<u16>(),
             0u8..4,
             proptest::collection::vec(prop_oneof![3 => Just(true), 1 => Just(false)], 0..tier.pick(24, 60)),
+            prop_oneof![30 => Just(0u8), 1 => 1u8..=40, 1 => 60u8..=120],
         )
-            .prop_map(|(k, build, start, kind, script)| Case { k, build, start, kind, script })
+            .prop_map(|(k, build, start, kind, script, chain)| Case { k, build, start, kind, script, chain })
             .boxed()
     }
     fn run(&self, case: &Case, ctx: &mut Ctx) -> CaseResult {
